@@ -450,3 +450,56 @@ def literal_set_guard(S, cond):
             if lit_str(b) is not None:
                 return (expr_text(a).lstrip("*&"), frozenset([lit_str(b)]))
     return None
+
+
+_PINNED_S = [False, None]
+
+
+def _pinned_suffixes():
+    if _PINNED_S[0] is False:
+        import json as _json
+        p = os.path.join(os.path.dirname(os.path.dirname(os.path.abspath(__file__))), "tables", "pinned_functions.json")
+        try:
+            with open(p) as fh:
+                ids = _json.load(fh)
+            suf = set()
+            for i in ids:
+                parts = re.sub(r"<[^<>]*>", "", i).split("::")
+                suf.add("::".join(parts[-2:]))
+                suf.add(parts[-1])
+            _PINNED_S[1] = suf
+        except (OSError, ValueError):
+            _PINNED_S[1] = None
+        _PINNED_S[0] = True
+    return _PINNED_S[1]
+
+
+def is_new_helper(fn):
+    """a function that did not exist at the pinned commit (see tables/pinned_functions.json): rules look through it"""
+    suf = _pinned_suffixes()
+    if suf is None:
+        return False
+    q = fn.qname if fn.owner else fn.name
+    return q not in suf
+
+
+def walk_block_deep(S, fn, depth=0, seen=None):
+    """walk_block(fn.body) plus the bodies of the new private helpers it calls (self.helper(..), Self::helper(..), helper(..) of the same file):
+    what was moved out of an anchored function by a clean-up is still seen by the rule that reads the function"""
+    seen = seen if seen is not None else set()
+    if fn.body is None or (fn.file, fn.qname) in seen:
+        return
+    seen.add((fn.file, fn.qname))
+    for e in walk_block(fn.body):
+        yield e
+        if depth >= 3:
+            continue
+        callee = None
+        if e.get("k") == "mcall":
+            callee = e["method"]
+        elif e.get("k") == "call" and e["func"].get("k") == "path":
+            callee = e["func"]["segs"][-1]
+        if callee:
+            for g in S.fns:
+                if g.name == callee and g.body is not None and g.file == fn.file and is_new_helper(g):
+                    yield from walk_block_deep(S, g, depth + 1, seen)
